@@ -592,16 +592,26 @@ func TestVF_C06(t *testing.T) {
 			hist := &vfIDHistory{}
 			acts := 0
 			pos, neg := 0, 0
-			for k := 0; k < 12; k++ {
+			var fired []string // genuine reads that started a transfer: redrawn later, they must start none if their id is remembered
+			for k := 0; k < 16; k++ {
 				trg := vfGenTrigger(r, k)
 				read := vfGenPrefix(r) + trg + vfGenSuffix(r)
 				if r.Intn(2) == 0 {
 					read = vfGenPrefix(r) + vfMutate(r, trg) + vfGenSuffix(r)
 				}
+				if k%4 == 1 { // a tmux / Windows style id, which the wrapper remembers
+					read = fmt.Sprintf("\x1b7\x07::TRZSZ:TRANSFER:%s:1.1.5:%011d%s:0\r\n", []string{"R", "S", "D"}[r.Intn(3)], r.U64()%100000000000, []string{"20", "10"}[r.Intn(2)])
+				}
 				if strings.Contains(read, "%output") || strings.Contains(read, "\x03") {
 					read = trg + "\r\n" // control-mode framing needs a tunnel; keep the filter-level reads plain
 				}
+				if len(fired) > 0 && k%4 == 3 {
+					read = fired[r.Intn(len(fired))] // the screen is redrawn
+				}
 				verdict, _, _ := vfModelDetect([]byte(read), false, false, vfWinEnv, hist)
+				if verdict == 1 {
+					fired = append(fired, read)
+				}
 				before := len(serverIn.Msgs())
 				outBefore := clientOut.Len()
 				serverOut.WriteAtomic([]byte(read))
